@@ -2,9 +2,10 @@
    Statements only; proofs in proofs/PqFooterProofs.v.  Level: PARTIAL.
    Full-strength statement, per modelled component:
        decode_total_safe : forall bytes, outcome ∈ {Ok, Err} /\ alloc <= c * |bytes| + c'
-   It is PROVED for the reader with the bounds checks (`cfg` flags true = the proposed patches) and REFUTED with
-   closed witnesses for the source as it is (flags scanned into gen/TablesFault.v on every run); the *_verdict_current
-   theorems pick the side that applies to the current source, so they keep checking after a repair.
+   It is PROVED for the reader with the bounds checks (`cfg` flags true) and REFUTED with closed witnesses for the reader
+   without them (cfg_source_now = the source before the repairs 142552dbd / 58ae48eb3, kept as the record of what failed).
+   The flags are scanned from the source into gen/TablesFault.v on every run; since the repairs all six hold and the
+   *_total_safe_current theorems state the safe side for the current source outright.
    Absence of crashes in the rest of the 30 kLoC crate is searched (vlib/c19.py), not proved. *)
 From Coq Require Import NArith ZArith List Bool.
 From GV Require Import model.PqBits model.PqDelta model.PqFooter proofs.PqFooterProofs.
@@ -85,7 +86,7 @@ Print Assumptions C19_thrift_witnesses_refuted.
 Theorem C19_thrift_witnesses_clean_when_patched :
   t_skip_top cfg_patched w_set = TErr /\ t_skip_top cfg_patched w_map = TErr /\
   t_skip_top cfg_patched w_double = TErr /\ t_skip_top cfg_patched w_vlq_field = TErr /\
-  (exists s, t_skip_top cfg_patched w_fid = TOk s).
+  t_skip_top cfg_patched w_fid = TErr.
 Proof. exact w_patched_clean. Qed.
 Print Assumptions C19_thrift_witnesses_clean_when_patched.
 
@@ -123,6 +124,71 @@ Theorem C19_list_alloc_verdict_current :
                                  exists x, t_list_alloc c 120 buf = TPanic x)).
 Proof. exact list_alloc_verdict_current. Qed.
 Print Assumptions C19_list_alloc_verdict_current.
+
+(* ---- the source as it is now (repairs 142552dbd footer length, 58ae48eb3 thrift reader): decode_total_safe holds for
+   the footer loader, the field-skipping path and the list headers.  A check that disappears from the source makes these
+   four stop checking (returning defect: vlib/c19.py then replays the witnesses and reports the failing bytes). *)
+Theorem C19_source_has_all_reader_checks : current_cfg = Some cfg_patched.
+Proof. exact source_has_all_reader_checks. Qed.
+Print Assumptions C19_source_has_all_reader_checks.
+
+Theorem C19_footer_total_safe_current :
+  exists c, current_cfg = Some c /\
+    forall file, out_clean (l_out (load_footer c file)) /\ l_alloc (load_footer c file) <= lenN file + 8.
+Proof. exact footer_safe_current. Qed.
+Print Assumptions C19_footer_total_safe_current.
+
+Theorem C19_thrift_skip_total_safe_current :
+  exists c, current_cfg = Some c /\
+    forall buf, out_clean (t_skip_top c buf) /\ (forall s', t_skip_top c buf = TOk s' -> s_alloc s' <= lenN buf).
+Proof. exact thrift_skip_safe_current. Qed.
+Print Assumptions C19_thrift_skip_total_safe_current.
+
+Theorem C19_list_alloc_total_safe_current :
+  exists c, current_cfg = Some c /\
+    forall es buf, (forall x, t_list_alloc c es buf <> TPanic x) /\
+                   (forall a r, t_list_alloc c es buf = TOk (a, r) -> a <= es * lenN buf).
+Proof. exact list_alloc_safe_current. Qed.
+Print Assumptions C19_list_alloc_total_safe_current.
+
+(* ---- loading an uncompressed page body by the header's sizes (column/page_reader.rs; NOT repaired: known classes
+   page-size-copy-mismatch, page-size-arith-overflow) *)
+Theorem C19_page_load_total_safe_if_checked : forall chunk_len off usz csz,
+  is_i32 usz -> is_i32 csz -> chunk_len < 2 ^ 64 ->
+  out_clean (p_out (load_page_plain true chunk_len off usz csz)) /\
+  p_alloc (load_page_plain true chunk_len off usz csz) <= chunk_len.
+Proof. exact page_load_safe_checked. Qed.
+Print Assumptions C19_page_load_total_safe_if_checked.
+Example C19_page_load_total_safe_if_checked_sat : is_i32 10 /\ is_i32 10 /\ 100 < 2 ^ 64.
+Proof. unfold is_i32. repeat split; discriminate || reflexivity. Qed.
+
+Theorem C19_page_load_witnesses_refuted :
+  load_page_plain false 100 20 8 10 = mk_paged (TPanic site_copy_len) 8 /\
+  load_page_plain false 100 20 10 (-1) = mk_paged (TPanic site_offset_add) 10 /\
+  load_page_plain false 100 20 2147483647 10 = mk_paged (TPanic site_copy_len) 2147483647 /\
+  load_page_plain false 100 20 (-1) 10 = mk_paged TErr 0 /\
+  load_page_plain false 100 20 10 200 = mk_paged TErr 10 /\
+  load_page_plain false 100 20 10 10 = mk_paged (TOk 30) 10.
+Proof. exact page_load_witnesses. Qed.
+Print Assumptions C19_page_load_witnesses_refuted.
+
+Theorem C19_page_load_witnesses_clean_when_patched :
+  load_page_plain true 100 20 8 10 = mk_paged TErr 0 /\
+  load_page_plain true 100 20 10 (-1) = mk_paged TErr 0 /\
+  load_page_plain true 100 20 2147483647 10 = mk_paged TErr 0 /\
+  load_page_plain true 100 20 10 10 = mk_paged (TOk 30) 10.
+Proof. exact page_load_witnesses_checked. Qed.
+Print Assumptions C19_page_load_witnesses_clean_when_patched.
+
+Theorem C19_page_load_verdict_current :
+  exists b, TablesFault.page_copy_len_checked = Some b /\
+    (if b
+     then forall chunk_len off usz csz, is_i32 usz -> is_i32 csz -> chunk_len < 2 ^ 64 ->
+            out_clean (p_out (load_page_plain b chunk_len off usz csz)) /\ p_alloc (load_page_plain b chunk_len off usz csz) <= chunk_len
+     else exists chunk_len off usz csz x, is_i32 usz /\ is_i32 csz /\
+            p_out (load_page_plain b chunk_len off usz csz) = TPanic x /\ p_alloc (load_page_plain b chunk_len off usz csz) > 1000 * chunk_len).
+Proof. exact page_load_verdict_current. Qed.
+Print Assumptions C19_page_load_verdict_current.
 
 (* ---- bit-level helpers of the page decoders (bitutil.rs, rle_bit_packed.rs; models of C10) *)
 Theorem C19_vlq_decode_no_panic : forall bs, vlq_decode bs <> Panic.
